@@ -266,9 +266,17 @@ func (idx *KVIndex) FieldTerms(field string) chan interface{} {
 		termPrefix := TermPrefix(field)
 		defer close(out)
 		idx.KV.View(func(it kvi.KVIterator) error {
+			terms := [][]byte{}
 			for it.Seek(termPrefix); it.Valid() && bytes.HasPrefix(it.Key(), termPrefix); it.Next() {
-				_, ttype, term := TermKeyParse(it.Key())
-				out <- GetBytesTerm(term, ttype)
+				terms = append(terms, it.Key())
+			}
+			for _, termKey := range terms {
+				_, ttype, term := TermKeyParse(termKey)
+				//term keys outlive their entries, only list terms that some document still has
+				entryPrefix := EntryValuePrefix(field, ttype, term)
+				if it.Seek(entryPrefix); it.Valid() && bytes.HasPrefix(it.Key(), entryPrefix) {
+					out <- GetBytesTerm(term, ttype)
+				}
 			}
 			return nil
 		})
